@@ -309,5 +309,45 @@ def r5_curl_argument_semantics(chk: Check) -> None:
             chk.violation("C09.R5", fn, construct, f"`{tok} <payload>` makes curl read the payload from a FILE when it starts with `@`: a text body such as `@notes.txt` is replayed as the contents of a local file (or an empty body), not as the bytes that were sent; `--data-raw` has no such rule", fn.loc(c))
 
 
+def r6_command_verbatim(chk: Check) -> None:
+    chk.rule("C09.R6", "VERBATIM(the command text on its way to the report): a raw newline, tab or run of spaces inside the command only ever occurs INSIDE a shell-quoted word (a multi-line text / YAML / multipart body, a header value); format_failures therefore embeds `curl` as it is (f-string part / concatenation, prefix before the FIRST line only) - a line-wise or character-wise rewrite (textwrap.indent / dedent / fill, replace, expandtabs, splitlines + join) changes the payload the pasted command sends", floor=1)
+    P = chk.project
+    fn = P.func("core/failures.py:format_failures")
+    if "curl" not in params_of(fn.node):
+        raise Undecided("format_failures has no `curl` parameter")
+    REWRITE = {"indent", "dedent", "fill", "wrap", "shorten", "replace", "expandtabs", "splitlines", "split", "strip", "lstrip", "rstrip", "lower", "upper", "translate", "sub", "join", "ljust", "rjust", "center", "format"}
+    # names carrying the command: curl and locals defined from it
+    carriers = {"curl"}
+    changed = True
+    uses = 0
+    while changed:
+        changed = False
+        for a in walk_body(fn.node):
+            if isinstance(a, ast.Assign) and len(a.targets) == 1 and isinstance(a.targets[0], ast.Name) and a.targets[0].id not in carriers and carriers & names_in(a.value):
+                carriers.add(a.targets[0].id)
+                changed = True
+    for c in body_calls(fn):
+        involved = [x for x in list(c.args) + [k.value for k in c.keywords] if carriers & names_in(x)]
+        recv = c.func.value if isinstance(c.func, ast.Attribute) else None
+        if recv is not None and carriers & names_in(recv):
+            involved.append(recv)
+        if not involved:
+            continue
+        uses += 1
+        name = last_attr(c) or ""
+        construct = f"format_failures: `{unparse(c, 70)}` leaves the command text as it is"
+        direct = [x for x in involved if not isinstance(x, (ast.JoinedStr, ast.BinOp))]
+        if name in REWRITE and direct:
+            chk.violation("C09.R6", fn, construct,
+                          f"`{name}` rewrites the text line by line / character by character: for a command with a multi-line quoted payload (text/plain, YAML, multipart, XML bodies; a header value with a newline) the report shows - and a shell pastes - a DIFFERENT body (e.g. 4 spaces after every newline), while as_curl_command() itself is still correct",
+                          fn.loc(c))
+        elif name in REWRITE:
+            chk.undecided("C09.R6", fn, construct, "a rewriting call on a string built from the command", fn.loc(c))
+        else:
+            chk.ok("C09.R6", fn, construct, "", fn.loc(c))
+    if uses < 1:
+        chk.undecided("C09.R6", fn, "uses of `curl`", "the command is not embedded through a call (formatter) any more", fn.loc())
+
+
 def rules(tier: str) -> list:  # type: ignore[type-arg]
-    return [r1_shell_quoting, r2_real_headers, r3_filter_headers, r5_curl_argument_semantics]
+    return [r1_shell_quoting, r2_real_headers, r3_filter_headers, r5_curl_argument_semantics, r6_command_verbatim]
